@@ -1,0 +1,25 @@
+//go:build verif
+
+package writer
+
+// Contracts for the govc verifier (see /verif/DESIGN.md). Comment-only: declares nothing.
+
+// ---- C08: the decision from (operation time, create time, drop time) -------------------
+// specSkip / specApply are written from the property statement:
+//   skip  : the object is known dropped at or after t (and not re-created at or before t),
+//           or it was (re-)created after t
+//   apply : the current incarnation was created at or before t and no later drop is recorded
+
+//@ spec specSkip(m, c, d uint64, cok, dok bool) bool = (dok && m <= d && !(cok && c >= d && m >= c)) || (cok && m < c && (!dok || c >= d))
+//@ spec specApply(m, c, d uint64, cok, dok bool) bool = cok && m >= c && (!dok || c >= d)
+
+//@ func getObjState
+//@   props C08
+//@   ensures [L4-apply] specApply(mtime, ctime, dtime, cok, dok) ==> result == InfoStateCreated
+//@   ensures [L3-skip] specSkip(mtime, ctime, dtime, cok, dok) ==> result == InfoStateDropped
+//@   ensures [L1-created-sound] result == InfoStateCreated ==> cok && ctime <= mtime && (dok ==> dtime <= ctime)
+//@   ensures [L2-dropped-sound] result == InfoStateDropped ==> (dok && mtime <= dtime) || (cok && mtime < ctime)
+//@   ensures [L5-total] result == InfoStateUnknown || result == InfoStateCreated || result == InfoStateDropped
+//@   ensures [L5-unknown] !cok && !dok ==> result == InfoStateUnknown
+//@   modifies nothing
+//@   panics never
